@@ -1,6 +1,8 @@
 package main
 
 import (
+	"sort"
+	"go/token"
 	"fmt"
 	"go/ast"
 	"go/types"
@@ -164,6 +166,7 @@ func (t *fnTrans) call(ins ssa.Instruction, c *ssa.CallCommon, res ssa.Value) {
 				cenv.vars[k] = v
 			}
 		}
+		t.bindLocals(cenv)
 		for i, cl := range cls {
 			label := cl.Label
 			if label == "" {
@@ -332,6 +335,78 @@ func parseLoc(s string) (ast.Expr, error) {
 func (t *fnTrans) applyModifies(ct *Contract, env *specEnv, oldSt *State) {
 	for _, loc := range ct.Modifies {
 		t.havocLoc(loc, env, oldSt)
+	}
+	t.keepPrivateLocals(oldSt)
+}
+
+// isPrivateAlloc: a local variable whose address never leaves the function (only field/element addressing,
+// loads and stores through it): no callee and no other goroutine can change it.
+func isPrivateAlloc(a *ssa.Alloc) bool {
+	var okRef func(v ssa.Value, depth int) bool
+	okRef = func(v ssa.Value, depth int) bool {
+		if v.Referrers() == nil || depth > 4 {
+			return false
+		}
+		for _, r := range *v.Referrers() {
+			switch x := r.(type) {
+			case *ssa.DebugRef:
+			case *ssa.UnOp:
+				if x.Op != token.MUL {
+					return false
+				}
+			case *ssa.Store:
+				if x.Addr != v {
+					return false // the address itself is stored somewhere
+				}
+			case *ssa.FieldAddr:
+				if !okRef(x, depth+1) {
+					return false
+				}
+			default:
+				return false
+			}
+		}
+		return true
+	}
+	return okRef(a, 0)
+}
+
+// keepPrivateLocals: a whole-heap havoc (allfields(T), heap("...")) does not reach the private locals of
+// the calling function.
+func (t *fnTrans) keepPrivateLocals(oldSt *State) {
+	var allocs []*ssa.Alloc
+	for v, lv := range t.lvals {
+		if a, ok := v.(*ssa.Alloc); ok && lv.Kind == lvObj && isStruct(lv.T) {
+			allocs = append(allocs, a)
+		}
+	}
+	sort.Slice(allocs, func(i, j int) bool { return allocs[i].Name() < allocs[j].Name() })
+	for _, a := range allocs {
+		lv := t.lvals[a]
+		if t.privAlloc == nil {
+			t.privAlloc = map[*ssa.Alloc]bool{}
+		}
+		priv, seen := t.privAlloc[a]
+		if !seen {
+			priv = isPrivateAlloc(a)
+			t.privAlloc[a] = priv
+		}
+		if !priv {
+			continue
+		}
+		var l location
+		t.collectStructHeaps(lv.T, &l)
+		for i, hn := range l.heaps {
+			cur, has := t.st.heaps[hn]
+			if !has {
+				continue
+			}
+			old := t.heapGet(oldSt, hn, l.sorts[i])
+			if cur == old {
+				continue
+			}
+			t.assume(eq(sel(cur, lv.Ref), sel(old, lv.Ref)))
+		}
 	}
 }
 
@@ -1136,10 +1211,7 @@ func (t *fnTrans) frameCheck(x *ssa.Return, env *specEnv) {
 		f := imp(and(le("1", r), le(r, top0), not(or(excl...))), same)
 		if strings.HasPrefix(hn, "C.") || strings.HasPrefix(hn, "F.") || strings.HasPrefix(hn, "B.") || strings.HasPrefix(hn, "GF.") {
 			// pre-existing: allocated objects, globals (small negative refs), and sub-objects of pre-existing objects
-			base := "(subobj_base " + r + ")"
-			isOld := or(and(le("1", r), le(r, top0)),
-				and(lt(r, "0"), lt("(- 1000000)", r)),
-				and(le(r, "(- 1000000)"), eq(r, "(subobj "+base+" (subobj_idx "+r+"))"), or(and(le("1", base), le(base, top0)), lt(base, "0"))))
+			isOld := isOldRef(r, top0)
 			f = imp(and(isOld, not(or(excl...))), same)
 		}
 		if inc := t.incomingEdges(x.Block()); len(inc) > 1 {
@@ -1150,6 +1222,15 @@ func (t *fnTrans) frameCheck(x *ssa.Return, env *specEnv) {
 			t.oblig("frame", x, hn, f, "only declared locations of "+hn+" are modified")
 		}
 	}
+}
+
+// isOldRef: r denotes an object that existed when the allocation mark was top0: an allocated object, a global
+// (small negative refs), or a sub-object of one of those.
+func isOldRef(r, top0 string) string {
+	base := "(subobj_base " + r + ")"
+	return or(and(le("1", r), le(r, top0)),
+		and(lt(r, "0"), lt("(- 1000000)", r)),
+		and(le(r, "(- 1000000)"), eq(r, "(subobj "+base+" (subobj_idx "+r+"))"), or(and(le("1", base), le(base, top0)), lt(base, "0"))))
 }
 
 // splitConj splits  A ==> (B && C)  into  A ==> B,  A ==> C  (and top-level conjunctions likewise).
